@@ -18,7 +18,20 @@ def namesOf (kv : KV) : Names :=
   let sniExt : Option Bytes :=
     if kv.getD "rmsni" "0" == "1" || mods.contains "nosni" then none
     else some (explicit.getD [])
-  { cfgName := cfg, sniExt := sniExt, ech := kv.getD "ech" "0" == "1", publicName := strBytes "public.verif.test" }
+  let base : Names := { cfgName := cfg, sniExt := sniExt, ech := kv.getD "ech" "0" == "1", publicName := strBytes "public.verif.test" }
+  -- edits made to the built UConn before Handshake builds the hello again
+  let post := kv.getD "post" ""
+  if post == "rmext" then { base with sniExt := none }
+  else if post.startsWith "extname:" then
+    match unhex (post.drop 8).toString with
+    | some n => if base.sniExt.isSome then { base with sniExt := some n } else base
+    | none => base
+  else if post.startsWith "setsni:" then
+    -- SetSNI(name): Config.ServerName and the extension's name both become hostnameInSNI(name)
+    match unhex (post.drop 7).toString with
+    | some n => { base with cfgName := Sni.hostnameInSNI n, sniExt := base.sniExt.map fun _ => Sni.hostnameInSNI n }
+    | none => base
+  else base
 
 /-- fields in which two reported states differ (the fields the property lists). -/
 def differing (a b : Conn) : List String :=
